@@ -343,7 +343,7 @@ _HCOBS_ASSUMED = [
     "ASSUMED (not proved here; producer-side content of C03/C04): OwningIovec::{new,push,push_copy,register_patch,"
     "backfill_or_panic,push_anchor} contracts over the ghost view (bytes, pending) -- vx/hcobs/assumed_iovec.rs",
     "ASSUMED: find_stuff_sequence returns the first FE FD index or None (its body uses windows().enumerate(), outside "
-    "Verus's dialect); checked only by a BOUNDED Kani harness (all slices of length <= 12)",
+    "Verus's dialect); checked only by a BOUNDED Kani harness (all slices of length <= 72 quick / 136 thorough)",
     "ASSUMED: AnchoredSlice::components yields exactly the anchored bytes (unsafe in the real crate; memory validity is C05)",
     "ASSUMED: Backref::len == registered pattern length; Backref: Default; std::mem::swap per vstd's specification",
     "consumer-side operations (drains) do not change the ghost view (bytes, pending): the logical stream since "
